@@ -92,7 +92,7 @@ def _execute(arg, want_info=False):
             except U.Timeout:
                 return [3], info      # the run does not end: compared with the model's OutOfFuel
             except U.OutOfDomain:
-                return [3], info
+                return [6], info      # prints an interpreter object: outside the modelled domain, not compared
             except PybtexError:
                 return [1], info
             except RecursionError:
@@ -198,8 +198,10 @@ def extra_checks(ck, tier, rng):
 
 def canon(fn, out):
     out = canon_res(out)
-    if isinstance(out, list) and len(out) == 2 and out[0] == 3:
-        return [3]         # the model: still OutOfFuel at the cap of out[1] steps = "does not end"
+    if isinstance(out, list) and out[:1] in ([3], [6]):
+        # no outcome to compare: the implementation does not end ([3]) or prints an interpreter object ([6], outside the
+        # modelled domain); the model answers [3, cap] (OutOfFuel at the cap) in both situations
+        return ['no outcome']
     if isinstance(out, list) and len(out) == 2 and out[0] == 0:
         st = list(out[1])
         st[2] = sorted(st[2])
@@ -233,7 +235,7 @@ PARTIAL = []
 
 def describe(fn, arg):
     return {'bst': U.to_bst(arg[0]), 'citations': [S(c) for c in arg[1]], 'bib': S(arg[2]),
-            'outcome_codes': '[0, state] ended; [1] BibTeX error; [2] foreign exception; [3] does not end (implementation: %d s CPU; model: [3, n] = still OutOfFuel after escalating the fuel to the cap n); [4] parsed script differs from the generated AST; [5] model only: the implementation\'s own READ failed while its result was being measured, so the model has no READ data' % CPU_LIMIT}
+            'outcome_codes': '[0, state] ended; [1] BibTeX error; [2] foreign exception; [3] does not end (implementation: %d s CPU; model: [3, n] = still OutOfFuel after escalating the fuel to the cap n); [4] parsed script differs from the generated AST; [6] implementation only: top$/stack$/int.to.str$ applied to a function or quoted variable (outside the modelled domain; the model answers [3, n]); [5] model only: the implementation\'s own READ failed while its result was being measured, so the model has no READ data' % CPU_LIMIT}
 
 def nontrivial(fn, arg, out):
     return out[0] == 0 and bool(out[1][0] or out[1][1] or out[1][3] or out[1][8])
